@@ -243,6 +243,14 @@ namespace logmessage::preprocessor {
         output.append(message);
         return output;
     }
+    std::string RecursiveMacro::formatMessage() const
+    {
+        auto output = m_location.format();
+        output.append("Macro '"sv);
+        output.append(macroname);
+        output.append("' is expanded recursively."sv);
+        return output;
+    }
     std::string UnknownPragma::formatMessage() const
     {
         auto output = m_location.format();
